@@ -245,8 +245,11 @@ func (x *Exec) checkPost(s *State, r *retState, ct *Contract) {
 		env.vars["result"] = r.vals[0]
 	}
 	// parameters keep their entry values in postconditions (Go parameters are mutable locals)
+	// in postconditions a parameter name denotes its value at entry (as in the caller's view of the
+	// call); the current value of the mutable local is irrelevant to the caller
 	for name, v := range f.specVars {
 		env.vars[name+"0"] = v
+		env.vars[name] = v
 	}
 	for _, en := range ct.Ensures {
 		x.oblige(s, "post", r.pos, env.evalBool(en), "postcondition: "+en.Src)
